@@ -2,6 +2,7 @@ package rules
 
 import (
 	"go/token"
+	"strings"
 
 	"golang.org/x/tools/go/ssa"
 
@@ -159,16 +160,77 @@ func runC16(c *eng.Ctx) {
 			return ok && (eng.CalleeRef(&call.Call) == "errors.Is" || eng.CalleeRef(&call.Call) == "github.com/pkg/errors.Is") && eng.Global(cl+"ErrIncorrectOffset")(call.Call.Args[1])
 		}, true)
 		n := 0
-		for _, s := range eng.CallsIn(fn, sendAckRef) {
-			call := s.(*ssa.Call)
-			if ackErrorConst(call.Call.Args[1]) == "Ack_INCORRECT_OFFSET" {
+		for _, call := range nackSitesIn(c, fn, "Ack_INCORRECT_OFFSET") {
+			{
 				n++
 				g, w := eng.GuardedBy(fn, call, isInc)
 				c.Check(g && len(isInc) > 0, "incorrect-offset nack tied to ErrIncorrectOffset", c.Pos(call), "sent only when errors.Is(err, ErrIncorrectOffset)", "the INCORRECT_OFFSET nack is sent for other errors too (path "+w.String()+")")
 			}
 		}
+		// the batch buffer is re-used by the next iteration (msgBatch = msgBatch[:0]): it must not be handed to anything that
+		// outlives the iteration
+		batch := map[ssa.Value]bool{}
+		changed := true
+		for changed {
+			changed = false
+			eng.Instrs(fn, func(in ssa.Instruction) {
+				v, isV := in.(ssa.Value)
+				if !isV || batch[v] {
+					return
+				}
+				switch x := in.(type) {
+				case *ssa.Call:
+					if b, ok := x.Call.Value.(*ssa.Builtin); ok && b.Name() == "append" {
+						for _, e := range variadicElems(x.Call.Args[1]) {
+							if mk := eng.AsCall(e); mk != nil && eng.CalleeRef(&mk.Call) == "server.natsToProtoMessage" {
+								batch[v], changed = true, true
+							}
+						}
+						if batch[x.Call.Args[0]] {
+							batch[v], changed = true, true
+						}
+					}
+				case *ssa.Phi:
+					for _, e := range x.Edges {
+						if batch[e] {
+							batch[v], changed = true, true
+						}
+					}
+				case *ssa.Slice:
+					if batch[x.X] {
+						batch[v], changed = true, true
+					}
+				}
+			})
+		}
+		escapes := ""
+		eng.Instrs(fn, func(in ssa.Instruction) {
+			ci, ok := in.(ssa.CallInstruction)
+			if !ok {
+				return
+			}
+			_, isGo := in.(*ssa.Go)
+			ref := eng.CalleeRef(ci.Common())
+			if !isGo && !strings.HasPrefix(ref, "server.Server.startGoroutine") {
+				return
+			}
+			var ops []ssa.Value
+			for _, a := range eng.AllArgs(ci.Common()) {
+				ops = append(ops, a)
+				ops = append(ops, variadicElems(a)...)
+				if mc, ok := a.(*ssa.MakeClosure); ok {
+					ops = append(ops, mc.Bindings...)
+				}
+			}
+			for _, o := range ops {
+				if batch[o] || batch[eng.Strip(o)] {
+					escapes = c.Pos(in)
+				}
+			}
+		})
+		c.Check(escapes == "" && len(batch) > 0, "the re-used batch buffer does not escape its iteration", p.Pos(fn.Pos()), "msgBatch is not passed to a goroutine", "messageProcessingLoop hands its batch buffer to a goroutine at "+escapes+", but the buffer is truncated and refilled by the next iteration: the goroutine reads the next publisher's message (an INCORRECT_OFFSET nack goes to a publisher whose message was stored, the rejected one is never answered)")
 		if n == 0 {
-			c.Violate("incorrect-offset nack", p.Pos(fn.Pos()), "no INCORRECT_OFFSET nack in messageProcessingLoop: the publisher is not told that its conditional publish lost")
+			c.Violate("incorrect-offset nack", p.Pos(fn.Pos()), "no INCORRECT_OFFSET nack is sent synchronously by messageProcessingLoop (directly or through a helper it calls in place): the publisher is not told that its conditional publish lost")
 		}
 	}
 	c.Floor(3)
